@@ -91,7 +91,32 @@ def search(big=False):
     return n, None
 
 
+def cross_template_search():
+    """what one template renders does not depend on which OTHER templates were compiled or rendered before it"""
+    from DocumentTemplate.DT_HTML import HTML
+    from DocumentTemplate.DT_String import String
+    n = 0
+    # (compiled first, then this class, source, what the second must render: the source is plain text for it)
+    for first, second, src in ((HTML, String, 'Dear <dtml-var v>, c17a'), (String, HTML, 'Dear %(v)s, c17b'),
+                               (HTML, String, '<dtml-if t>y</dtml-if> c17c'), (String, HTML, '%(if t)[y%(if)] c17d')):
+        n += 1
+        try:
+            first(src)(v='V', t=1)
+        except Exception:
+            pass
+        try:
+            after = second(src)(v='V', t=1)
+        except Exception as e:  # noqa
+            after = 'EXC ' + type(e).__name__
+        if after != src:
+            return n, dict(source=src, cls=second.__name__, other_template_compiled_first=first.__name__, output=after, expected=src)
+    return n, None
+
+
 def native_for(oid, model):
+    n, fail = cross_template_search()
+    if fail:
+        return dict(holds=False, inputs=fail, observed='a fresh template renders differently after another template was compiled', cases_tried=n)
     n, fail = search()
     if fail:
         return dict(holds=False, inputs=fail, observed='a history of operations changes what the template renders', cases_tried=n)
